@@ -31,8 +31,9 @@ import (
 const batch = 100
 
 var (
-	firstTimeout  = 20 * time.Second
-	secondTimeout = 60 * time.Second
+	clientPatience = 500 * time.Millisecond
+	firstTimeout   = 20 * time.Second
+	secondTimeout  = 60 * time.Second
 )
 
 func init() {
@@ -145,6 +146,10 @@ func execute(job func(ctx context.Context, o *outcome), timeout time.Duration) (
 	o.cur.Store("start")
 	ctx, cancel := context.WithCancel(context.Background())
 	defer cancel()
+	// the client goes away after clientPatience, as any client may: this ends the real code's retry back-offs on a
+	// missing store file (1+1+2+3+5 s...) instead of sleeping through them; code that ignores the context is unaffected
+	away := time.AfterFunc(clientPatience, func() { o.clientWentAway.Store(true); cancel() })
+	defer away.Stop()
 	done := make(chan struct{})
 	go func() {
 		defer close(done)
@@ -369,18 +374,20 @@ func run(c *fw.Case) {
 
 		t0 := time.Now()
 		o, hungAt := execute(job(decoded), firstTimeout)
-		if d := time.Since(t0); d > 100*time.Millisecond {
-			c.Count("requests_slower_than_100ms", 1)
-			why := "?"
-			if o != nil && o.err != nil {
-				why = o.rejectedAt + ": " + fw.NormalizeMsg(o.err.Error())
-			} else if o != nil {
-				why = fmt.Sprintf("tier%d accepted/panic", tier)
-			}
-			c.Logf("slow request: %s %s", d, why)
-			c.Distinct("slow_request_outcomes", why)
-		}
 		c.Max("slowest_request_ms", time.Since(t0).Milliseconds())
+		if o != nil && o.clientWentAway.Load() {
+			c.Count("requests_still_running_when_client_went_away", 1)
+			why := fmt.Sprintf("tier%d no error", tier)
+			if o.err != nil {
+				why = o.rejectedAt + ": " + fw.NormalizeMsg(o.err.Error())
+			}
+			c.Logf("request outlived the client (%s): %s", time.Since(t0), why)
+			c.Distinct("outcomes_after_client_went_away", why)
+			if o.panicStage == "" && !(o.err != nil && strings.Contains(o.err.Error(), "load full store") && strings.Contains(o.err.Error(), "context canceled")) {
+				// only the retry back-off on a missing store file is expected to take that long
+				c.Inconclusive(fmt.Sprintf("tier%d request ran for more than %s for an unexpected reason: %s", tier, clientPatience, why))
+			}
+		}
 		if o == nil {
 			if hungStages[hungAt] && confirmedHangs >= 2 {
 				c.Count("skipped_after_confirmed_hangs", 1)
@@ -416,6 +423,7 @@ func run(c *fw.Case) {
 			violation("C17/no-result-and-no-error/"+o.nilResult, fmt.Sprintf("stage %s returned a nil result and a nil error", o.nilResult), mkWitness(o))
 		case o.rejectedAt != "":
 			c.Count("rejected_at/"+stageKey(tier, o.rejectedAt), 1)
+			c.Logf("rejected tier%d %s: %s", tier, o.rejectedAt, fw.NormalizeMsg(o.err.Error()))
 			c.Distinct("rejection_reasons", o.rejectedAt+": "+fw.NormalizeMsg(o.err.Error()))
 			if family == "D-well-formed" {
 				c.Count("well_formed_rejected_in_its_environment", 1)
